@@ -14,5 +14,6 @@ def run(ctx):
     n = state.r_reset(ctx)
     v = state.r_verbose(ctx)
     state.r_determ(ctx)
+    state.r_memo(ctx, exits=False)  # module-level null objects (derived points / expressions) keep no value from an earlier model
     ctx.floor("class-level state cells", n, 11)
     ctx.floor("verbosity guards", v, 44)
